@@ -19,6 +19,13 @@ for d in seeded/${1:-*}/; do
   rm -rf $WT/$dest; [ -d $d/demo_extra ] && for x in $d/demo_extra/*; do rm -rf $WT/$(dirname $dest)/$(basename $x); done
   (cd $WT && go build ./... && flock /tmp/suite.lock go test -vet=off -count=1 ./... 2>&1) >/tmp/sm_$id.base 2>&1 # the suite binds a fixed port: one at a time
   okc=$(grep -c "^ok" /tmp/sm_$id.base); failc=$(grep -c "^FAIL\|^--- FAIL\|panic:" /tmp/sm_$id.base)
+  note=""
+  # the baseline's TestSystemTransportDontBlockOnClose is known to hang until the 10-minute deadline on a loaded
+  # machine (also on the unchanged tree): if that is the only failure, the transport package is run once more alone
+  if [ $okc -eq 10 ] && grep -q "panic: test timed out" /tmp/sm_$id.base && ! grep "^FAIL" /tmp/sm_$id.base | grep -v "scrapligo/transport\|^FAIL$" | grep -q .; then
+    (cd $WT && flock /tmp/suite.lock go test -vet=off -count=1 ./transport/ 2>&1) >/tmp/sm_$id.base2 2>&1
+    if grep -q "^ok" /tmp/sm_$id.base2 && ! grep -q "^FAIL\|^--- FAIL\|panic:" /tmp/sm_$id.base2; then okc=11; failc=0; note=" (transport package re-run alone after the known 10-minute hang)"; fi
+  fi
   res=""
   for c in $checks; do
     (VERIF_REPO=$WT timeout 2400 ./run.sh $c quick) >/tmp/sm_${id}_$c.log 2>&1; r=$?
@@ -27,5 +34,5 @@ for d in seeded/${1:-*}/; do
   done
   git -C /repo worktree remove --force $WT
   verdict=CONFIRMED; [ $before -eq 0 ] && [ $after -ne 0 ] && [ $failc -eq 0 ] && [ $okc -ge 11 ] || verdict=NOT-CONFIRMED
-  echo "$id $verdict demo_without=$before demo_with=$after baseline_ok_pkgs=$okc baseline_fail_lines=$failc checks:$res"
+  echo "$id $verdict demo_without=$before demo_with=$after baseline_ok_pkgs=$okc baseline_fail_lines=$failc$note checks:$res"
 done
